@@ -432,7 +432,8 @@ def retention_replay(ctx, behs, tiny, tag):
     d = ctx.sub('ret-' + tag)
     inp, out = os.path.join(d, 'beh.ndjson'), os.path.join(d, 'res.ndjson')
     write_ndjson(inp, behs)
-    ctx.run_kvh(['retention-replay', '-in', inp, '-work', os.path.join(d, 'w'), '-out', out] + (['-tiny'] if tiny else []), timeout=900)
+    ctx.run_kvh(['retention-replay', '-in', inp, '-work', os.path.join(d, 'w'), '-out', out] +
+                (['-queued'] if tiny == 'queued' else ['-tiny'] if tiny else []), timeout=900)
     res = read_ndjson(out)
     if len(res) != len(behs):
         raise Infra(f'retention-replay {tag}: {len(res)} results for {len(behs)} behaviours')
@@ -444,29 +445,33 @@ def retention(ctx, prop):
     Model-checked with and without the guard; TLC-generated walks (put, flush, acknowledge, die - also inside an append -,
     recover) are performed on a real primary, one child process per life, with the log files, the readable entries, the
     next sequence number and unflushedFrom compared with the specification after every step."""
-    for cfg in ('MC_Retention.cfg', 'MC_Retention_tiny.cfg'):
-        tlc_mc(ctx, 'KevoRetention', cfg, timeout=600)
-    bad, _, out = tlc_mc(ctx, 'KevoRetention', 'MC_Retention_neg.cfg', timeout=600, expect_violation=True)
-    if not (bad and 'Recoverable is violated' in out):
-        raise Infra('negative configuration: retention without the guard must violate Recoverable in the specification')
+    for cfg in ('MC_Retention.cfg', 'MC_Retention_tiny.cfg', 'MC_Retention_queued_quick.cfg' if ctx.quick() else 'MC_Retention_queued.cfg'):
+        tlc_mc(ctx, 'KevoRetention', cfg, timeout=900)
+    for neg in ('MC_Retention_neg.cfg', 'MC_Retention_queued_neg.cfg'):
+        bad, _, out = tlc_mc(ctx, 'KevoRetention', neg, timeout=600, expect_violation=True)
+        if not (bad and 'Recoverable is violated' in out):
+            raise Infra(f'negative configuration {neg}: retention without the guard must violate Recoverable in the specification')
     bad, _, out = tlc_mc(ctx, 'KevoRetention', 'MC_Retention_live.cfg', timeout=600, expect_violation=True)
     if not (bad and 'NothingEverDeleted is violated' in out):
         raise Infra('vacuity: no behaviour of KevoRetention ever deletes a log file')
-    n = 40 if ctx.quick() else 400
     deletions = 0
-    for tiny, cfg, depth in ((False, 'GEN_Retention.cfg', 14), (True, 'GEN_Retention_tiny.cfg', 12)):
-        behs = tlc_sim(ctx, 'GEN_Retention', cfg, n, depth, ctx.seed * 31 + (7 if tiny else 3), tag=f'gen-ret-{int(tiny)}')
+    # mode: False = large memory table (explicit flushes write the active table in place), True = one-byte table (every write
+    # switches and flushes), 'queued' = a large value fills the table, the background flush is a step of the walk (writes in
+    # between share a log file with the queued tables' entries)
+    for tiny, cfg, depth, n in ((False, 'GEN_Retention.cfg', 14, 40 if ctx.quick() else 400), (True, 'GEN_Retention_tiny.cfg', 12, 40 if ctx.quick() else 400),
+                                ('queued', 'GEN_Retention_queued.cfg', 16, 160 if ctx.quick() else 1500)):
+        behs = tlc_sim(ctx, 'GEN_Retention', cfg, n, depth, ctx.seed * 31 + (7 if tiny else 3), tag=f'gen-ret-{tiny}')
         for b in behs:
             if any(st['a'] == 'ack' and i > 0 and len(st['files']) < len(b[i - 1]['files']) for i, st in enumerate(b)):
                 deletions += 1
-        res = retention_replay(ctx, behs, tiny, f'{int(tiny)}')
+        res = retention_replay(ctx, behs, tiny, f'{tiny}')
         ctx.traces += len(behs)
         ctx.evaluations += sum(r['steps'] for r in res)
         for b in behs:
             ctx.nontrivial.add(('retention', tiny, json.dumps([(st['a'], st['s'], st['torn']) for st in b])))
         for r in [r for r in res if not r['ok']][:3]:
             beh = behs[r['b']]
-            again = retention_replay(ctx, [beh], tiny, f'repro-{int(tiny)}-{r["b"]}')[0]
+            again = retention_replay(ctx, [beh], tiny, f'repro-{tiny}-{r["b"]}')[0]
             if r.get('infra') and again.get('infra'):
                 raise Infra('retention replay: ' + str(r.get('what')))
             if again['ok'] or again.get('infra'):
@@ -474,7 +479,7 @@ def retention(ctx, prop):
                 continue
             path = save_replay(ctx, 'retention', {'retention': beh, 'tiny': tiny, 'mismatch': again})
             ctx.violations.append({'what': f"primary with an acknowledging replication client, step {again.get('step')} of a generated walk "
-                                           f"({'one-byte' if tiny else 'large'} memory table): {again.get('what')}", 'replay': path})
+                                           f"(memory table: {({False: 'large', True: 'one byte', 'queued': '4 KB, flush as a step'})[tiny]}): {again.get('what')}", 'replay': path})
     if deletions == 0:
         raise Infra('vacuity: no generated retention walk deletes a log file')
     ctx.notes['retention_walks_with_a_deleted_log_file'] = deletions
@@ -483,7 +488,7 @@ def retention(ctx, prop):
     if base is not None:
         m = json.loads(json.dumps(base))
         m[2]['next'] += 1
-        r = retention_replay(ctx, [m], True, 'selftest')[0]
+        r = retention_replay(ctx, [m], tiny, 'selftest')[0]
         if r['ok'] or r.get('step') != 3:
             raise Infra(f'binding self-test failed: a corrupted prediction (next sequence number at step 3) was not noticed there: {r}')
 
